@@ -11,7 +11,7 @@ Not decided here: RLE max size (amortised), adaptive max size (depends on select
 cursors kept in reader/writer objects, block residues) - listed in the evidence."""
 import os
 from ..report import Run, Finding, rel
-from ..common import lib_module, configs_for, need_fn
+from ..common import lib_module, configs_for, need_fn, with_helpers_inlined
 from ..build import AnalysisBroken
 from ..core import World
 from .. import sizeterms as ST
@@ -61,6 +61,12 @@ def analyse(mod, run, label):
     for pred, enc, exact in PAIRS:
         pf = need_fn(mod, pred); ef = need_fn(mod, enc)
         pt, pd = ST.size_terms(pf, mod, "size"); et, ed = ST.size_terms(ef, mod, "cursor")
+        if pt and not et:
+            # the encoder may have been split into cursor-returning helpers: look at it with those inlined
+            m2, ef2 = with_helpers_inlined(mod, ef, label)
+            if m2 is not None:
+                et, ed = ST.size_terms(ef2, m2, "cursor")
+                if et: run.observe("%s: size terms read with its file-local helpers inlined" % enc)
         if not pt or not et: raise AnalysisBroken("%s / %s: no size terms extracted" % (pred, enc))
         npairs += 1
         unc, unexp = ST.match_terms(pt, et, exact)
@@ -83,7 +89,13 @@ def analyse(mod, run, label):
     for pred, field, enc, exact in TOTALS:
         pf = need_fn(mod, pred); ef = need_fn(mod, enc)
         try:
-            pp = total_poly(w, pf, field); ep = total_poly(w, ef, None)
+            pp = total_poly(w, pf, field)
+            try: ep = total_poly(w, ef, None)
+            except Unbounded:
+                # the encoder may have been split into cursor-returning helpers: evaluate it with those inlined
+                m2, ef2 = with_helpers_inlined(mod, ef, label)
+                if m2 is None: raise
+                ep = total_poly(World(m2), ef2, None)
         except Unbounded as e:
             run.defer_broken("Z3 %s / %s: total size not evaluable: %s" % (pred, enc, e)); continue
         # a length the predictor does not name is at most the longest entry of its table for the width of the measured value
